@@ -51,6 +51,9 @@ def detect(patch, props):
         # written against an earlier commit: let patch(1) place the hunks
         sh("git -C /repo checkout -- .")
         rc, o = sh("patch -p1 -F3 --no-backup-if-mismatch -d /repo < %s" % patch)
+        if rc != 0:
+            # leave /repo as it was found
+            sh("git -C /repo checkout -- . && git -C /repo clean -fdq -- summer2")
     assert rc == 0, o
     # the evidence files describe the unchanged tree: keep them
     import shutil
